@@ -1,4 +1,4 @@
 From Coq Require Import Extraction ExtrOcamlBasic ExtrOcamlString.
 From Oras Require Import Base.Prelude Model.FileConfine.
 Extraction Language OCaml.
-Extraction "xc11.ml" pushes cfg_fixed cfg_prefix content dir_mode file_stamp dir_stamp inside view_at sym_node.
+Extraction "xc11.ml" push pushes cfg_fixed cfg_prefix content dir_mode file_stamp dir_stamp inside view_at sym_node exists_obs.
